@@ -607,7 +607,7 @@ theorem saturating_mul_decides (f n k : Nat) (hk : k < 2 ^ 64) :
   · intro h; exact le_trans h (min_le_left _ _)
   · intro h; exact le_min h (by omega)
 
-/-- COUNTEREXAMPLE (the code before 7811e56, release build): the wrapping product `factor * size mod
+/-- COUNTEREXAMPLE (the code before 407607c, release build): the wrapping product `factor * size mod
 2^64` takes the wrong decision — factor 2^63, k = size = 2 wraps to 0, so the criterion never stopped
 the search although `k ≤ factor * size` (debug builds panicked) -/
 theorem factor_wrapping_counterexample :
@@ -706,7 +706,7 @@ theorem similarity_fails_only_on_unknown_edge [HasSqrt α] (f : SimFn α) (edges
     k = .network ∧ (∃ thr, f = .distanceWeightedCosine thr) ∧ ∃ e ∈ a ++ b, edges[e]? = none :=
   Ksp.SimFn.rank_error f edges h
 
-/-- **a reverse query is refused** by both k-shortest-paths algorithms (vfix bf52447: it used to be
+/-- **a reverse query is refused** by both k-shortest-paths algorithms (vfix ca2baf1: it used to be
 answered as a forward query), as is a query without destination -/
 theorem ksp_reverse_query_refused (c : Config α) (hrev : c.reverse = true) (gcRev : List α)
     (sim : List Nat → List Nat → Except ErrKind Bool) (term : Option KspTerm) (kDefault : Nat)
@@ -746,7 +746,7 @@ theorem alg_config_object (num : Json → Option α) (d : Nat) (kvs : List (Stri
     simp [AlgCfg.ofJson, htag, Content.arity, Content.req, Content.opt, optOfJson, h1, h2, h3, h4,
       h5, h6]
 
-/-- **a k-shortest-paths algorithm as `underlying` of single-via** (vfix bf52447): the nested
+/-- **a k-shortest-paths algorithm as `underlying` of single-via** (vfix ca2baf1): the nested
 algorithm's reverse run is refused, so the result is at most ONE route — the backtrack of the
 nested forward run's first tree, which is the forward tree of the innermost search: a contiguous
 loop-free walk origin ⇝ destination.  (Before the repair two forward trees were joined and routes
